@@ -1,10 +1,398 @@
-//! C34 — not built yet.
+//! C34 Next-run scheduling respects refresh and min-refresh.
+//!
+//! refresh / min-refresh go through routinator's option parsers; a history performs an initial
+//! and then a regular validation result; `refresh_wait()` (the value the server loop sleeps for
+//! after a regular run) is judged with wall-clock brackets taken immediately around the calls.
+//!
+//! Data-set expiry: without a repository, the expiry of a data set is produced through the
+//! public processing interface the engine itself uses (`ProcessRun::process_ta` on the real
+//! `ValidationReport`, `ProcessPubPoint::{point_validity, process_roa, commit}`) with a real,
+//! rpki-validated trust-anchor certificate and ROA built once per run; the publication point's
+//! validity handed to `point_validity` carries the generated expiry, exactly what the engine
+//! passes for a manifest/CRL that goes stale at that time.
+
+use std::net::Ipv4Addr;
+use std::str::FromStr;
+use std::sync::Arc;
+use std::time::{Duration, Instant, SystemTime, UNIX_EPOCH};
+
+use proptest::prelude::*;
+use routinator::config::Config;
+use routinator::engine::{CaCert, Engine, ProcessPubPoint, ProcessRun};
+use routinator::metrics::{Metrics, TalMetrics};
+use routinator::operation::Server;
+use routinator::payload::{SharedHistory, ValidationReport};
+use routinator::slurm::LocalExceptions;
+use rpki::crypto::softsigner::OpenSslSigner;
+use rpki::crypto::{PublicKeyFormat, Signer};
+use rpki::repository::cert::{KeyUsage, Overclaim, ResourceCert, TbsCert};
+use rpki::repository::resources::{Asn, Prefix};
+use rpki::repository::roa::{RoaBuilder, RouteOriginAttestation};
+use rpki::repository::sigobj::SignedObjectBuilder;
+use rpki::repository::tal::{Tal, TalUri};
+use rpki::repository::x509::{Time, Validity};
+use rpki::rtr::server::NotifySender;
+use rpki::uri;
+use serde::{Deserialize, Serialize};
 
 use crate::core::*;
+use crate::hist::*;
 
-pub const IMPLEMENTED: bool = false;
+#[derive(Serialize, Deserialize, Clone, Debug)]
+pub struct Case {
+    pub refresh: u64,
+    pub min_refresh: Option<u64>,
+    /// Options given in the config file instead of the command line.
+    pub via_file: bool,
+    /// Expiry of the regular run's data set, seconds relative to the start of that run
+    /// (negative: already expired). None: data set without expiry.
+    pub expiry: Option<i64>,
+    /// The initial run's data set already contains the expiring object (regular run = no change).
+    pub unchanged: bool,
+}
 
-pub fn run(_ctx: &Ctx, _rep: &mut Report, _replay: Option<&serde_json::Value>) {
-    eprintln!("C34: check not implemented");
-    std::process::exit(2);
+#[derive(Serialize, Deserialize, Clone, Debug)]
+pub struct LoopCase {
+    pub refresh: u64,
+    pub min_refresh: Option<u64>,
+    pub via_file: bool,
+    /// 0: empty data; 1: same assertions in both runs; 2: assertions change between the runs.
+    pub data: u8,
+}
+
+/// Real objects used to give a data set an expiry.
+pub struct Fixture {
+    tal: Tal,
+    tal_uri: TalUri,
+    ca: Arc<CaCert>,
+    ee: ResourceCert,
+    route: RouteOriginAttestation,
+    roa_uri: uri::Rsync,
+    not_before: Time,
+}
+
+impl Fixture {
+    pub fn new() -> Self {
+        let signer = OpenSslSigner::new();
+        let key = signer.create_key(PublicKeyFormat::Rsa).expect("key");
+        let pubkey = signer.get_key_info(&key).expect("key info");
+        let base = uri::Rsync::from_str("rsync://rv.test/m/").unwrap();
+        let ta_uri = "rsync://rv.test/m/ta.cer";
+        let not_before = Time::utc(2020, 1, 1, 0, 0, 0);
+        let validity = Validity::new(not_before, Time::utc(2400, 1, 1, 0, 0, 0));
+        let mut cert = TbsCert::new(12u64.into(), pubkey.to_subject_name(), validity, None, pubkey.clone(), KeyUsage::Ca, Overclaim::Refuse);
+        cert.set_basic_ca(Some(true));
+        cert.set_ca_repository(Some(base.clone()));
+        cert.set_rpki_manifest(Some(base.join(b"ta.mft").unwrap()));
+        cert.build_v4_resource_blocks(|b| b.push(Prefix::new(0, 0)));
+        cert.build_v6_resource_blocks(|b| b.push(Prefix::new(0, 0)));
+        cert.build_as_resource_blocks(|b| b.push((Asn::MIN, Asn::MAX)));
+        let cert = cert.into_cert(&signer, &key).expect("sign ta");
+        let tal_text = format!("{}\n\n{}\n", ta_uri, rpki::util::base64::Xml.encode(pubkey.to_info_bytes().as_ref()));
+        let tal = Tal::read_named("rv".into(), &mut tal_text.as_bytes()).expect("tal");
+        let tal_uri = tal.uris().next().expect("tal uri").clone();
+        let roa_uri = base.join(b"a.roa").unwrap();
+        let mut roa = RoaBuilder::new(64496.into());
+        roa.push_v4_addr(Ipv4Addr::new(192, 0, 2, 0), 24, None);
+        let roa = roa.finalize(SignedObjectBuilder::new(13u64.into(), validity, base.join(b"ta.crl").unwrap(), uri::Rsync::from_str(ta_uri).unwrap(), roa_uri.clone()), &signer, &key).expect("sign roa");
+        // re-decode from DER, as the engine would see it
+        let roa = rpki::repository::roa::Roa::decode(roa.to_captured().into_bytes(), false).expect("roa decodes");
+        let ta = cert.validate_ta(tal.info().clone(), false).expect("ta validates");
+        let (ee, route) = roa.process(&ta, false, |_| Ok(())).expect("roa validates");
+        let ca = CaCert::root(ta, tal_uri.clone(), 0).expect("ca cert");
+        Fixture { tal, tal_uri, ca, ee, route, roa_uri, not_before }
+    }
+
+    /// A validation report holding one publication point (one VRP) that expires at `expiry`.
+    pub fn report(&self, config: &Config, expiry: Time) -> (ValidationReport, Metrics) {
+        let report = ValidationReport::new(config);
+        {
+            let mut point = (&report).process_ta(&self.tal, &self.tal_uri, &self.ca, 0).expect("process_ta").expect("processor");
+            point.point_validity(Validity::new(self.not_before, expiry), expiry);
+            point.process_roa(&self.roa_uri, self.ee.clone(), self.route.clone()).expect("process_roa");
+            point.commit();
+        }
+        let mut metrics = Metrics::new();
+        metrics.tals.push(TalMetrics::new(self.tal.info().clone()));
+        (report, metrics)
+    }
+}
+
+impl Default for Fixture {
+    fn default() -> Self {
+        Self::new()
+    }
+}
+
+fn secs(t: SystemTime) -> f64 {
+    t.duration_since(UNIX_EPOCH).expect("after epoch").as_secs_f64()
+}
+
+struct Bracket {
+    t0: SystemTime,
+    i0: Instant,
+}
+
+impl Bracket {
+    fn start() -> Self {
+        Bracket { t0: SystemTime::now(), i0: Instant::now() }
+    }
+    /// (t0, t1) in seconds since the epoch, or the reason the case cannot be judged.
+    fn finish(self) -> Result<(f64, f64), String> {
+        let di = self.i0.elapsed().as_secs_f64();
+        let t1 = SystemTime::now();
+        let (t0, t1) = (secs(self.t0), secs(t1));
+        if ((t1 - t0) - di).abs() > 0.25 {
+            return Err("clock_step".into());
+        }
+        if di > 5.0 {
+            return Err("slow_machine".into());
+        }
+        Ok((t0, t1))
+    }
+}
+
+fn expiry_class(case_min: Option<u64>, refresh: u64, expiry: Option<i64>) -> &'static str {
+    let Some(e) = expiry else { return "expiry=none" };
+    let r = refresh as i128;
+    let e = e as i128;
+    let m = case_min.map(|m| m as i128);
+    if e < 0 {
+        "expiry=past"
+    } else if e == r {
+        "expiry=at_refresh"
+    } else if e > r {
+        "expiry=after_refresh"
+    } else if let Some(m) = m {
+        if e < m {
+            "expiry=below_min"
+        } else if e == m {
+            "expiry=at_min"
+        } else {
+            "expiry=inside(min,refresh)"
+        }
+    } else {
+        "expiry=before_refresh(min unset)"
+    }
+}
+
+/// The oracle. `wait` was computed at some instant in [t0, t1]; the run finished (mark_update_done)
+/// in [t0, wait instant]. `expiry_abs`: absolute expiry (seconds since the epoch).
+fn oracle(refresh: u64, min: Option<u64>, expiry_abs: Option<f64>, class: &str, wait: Duration, t0: f64, t1: f64) -> Verdict {
+    let floor = min.unwrap_or(refresh);
+    let ceil = refresh.max(floor);
+    let minset = if min.is_some() { "set" } else { "unset" };
+    if wait < Duration::from_secs(floor) {
+        return Verdict::fail(format!("C34/below-floor/min-refresh={}", minset), format!("wait {:?} < floor {} s (refresh {} min-refresh {:?} {})", wait, floor, refresh, min, class));
+    }
+    let w = wait.as_secs_f64();
+    if w > ceil as f64 + 1.0 {
+        return Verdict::fail(format!("C34/above-ceiling/min-refresh={}", minset), format!("wait {:?} > max(refresh, min-refresh) = {} s (refresh {} min-refresh {:?} {})", wait, ceil, refresh, min, class));
+    }
+    if let Some(m) = min {
+        let r = refresh as f64;
+        let e = expiry_abs.unwrap_or(f64::INFINITY);
+        let lo = ((t0 + r).min(e) - t1).max(m as f64) - 1.0;
+        let hi = ((t1 + r).min(e) - t0).max(m as f64) + 1.0;
+        if w < lo {
+            return Verdict::fail(format!("C34/wait-shorter-than-due/{}", class), format!("wait {:.3} s < {:.3} s (refresh {} min-refresh {} expiry in {:?} s, bracket {:.3} s)", w, lo, refresh, m, expiry_abs.map(|e| e - t0), t1 - t0));
+        }
+        if w > hi {
+            return Verdict::fail(format!("C34/wait-longer-than-due/{}", class), format!("wait {:.3} s > {:.3} s (refresh {} min-refresh {} expiry in {:?} s, bracket {:.3} s)", w, hi, refresh, m, expiry_abs.map(|e| e - t0), t1 - t0));
+        }
+    }
+    Verdict::Pass
+}
+
+fn make_config(env: &Env, refresh: u64, min: Option<u64>, via_file: bool) -> Result<Config, String> {
+    let config = if via_file {
+        let mut lines = vec![format!("refresh = {}", refresh)];
+        if let Some(m) = min {
+            lines.push(format!("min-refresh = {}", m));
+        }
+        env.config(&lines, &[])?
+    } else {
+        let mut cli = vec!["--refresh".to_string(), refresh.to_string()];
+        if let Some(m) = min {
+            cli.extend(["--min-refresh".to_string(), m.to_string()]);
+        }
+        env.config(&[], &cli)?
+    };
+    if config.refresh != Duration::from_secs(refresh) || config.min_refresh != min.map(Duration::from_secs) {
+        return Err(format!("options read back as refresh={:?} min-refresh={:?}", config.refresh, config.min_refresh));
+    }
+    Ok(config)
+}
+
+fn common_classes(info: &mut CaseInfo, refresh: u64, min: Option<u64>, via_file: bool) {
+    info.class(match min {
+        None => "min=unset",
+        Some(m) if m < refresh => "min<refresh",
+        Some(m) if m == refresh => "min=refresh",
+        Some(_) => "min>refresh",
+    });
+    info.class(if via_file { "via=file" } else { "via=cli" });
+}
+
+fn judge(env: &Env, fx: &Fixture, case: &Case, info: &mut CaseInfo) -> Verdict {
+    let config = match make_config(env, case.refresh, case.min_refresh, case.via_file) {
+        Ok(c) => c,
+        Err(e) => return Verdict::Dropped(format!("config: {}", e)),
+    };
+    let class = expiry_class(case.min_refresh, case.refresh, case.expiry);
+    info.class(class);
+    info.class(if case.unchanged { "regular_run=no_change" } else { "regular_run=change" });
+    common_classes(info, case.refresh, case.min_refresh, case.via_file);
+    info.nt(class == "expiry=inside(min,refresh)");
+    let history = SharedHistory::from_config(&config);
+    let far = Time::utc(2300, 1, 1, 0, 0, 0);
+    // initial run
+    if case.unchanged && case.expiry.is_some() {
+        let (report, metrics) = fx.report(&config, far);
+        history.update(report, &LocalExceptions::empty(), metrics);
+    } else {
+        history.update(ValidationReport::new(&config), &LocalExceptions::empty(), Metrics::new());
+    }
+    history.mark_update_done();
+    // regular run
+    let bracket = Bracket::start();
+    let expiry_abs: Option<i64> = case.expiry.map(|off| secs(bracket.t0).floor() as i64 + off);
+    let (report, metrics) = match expiry_abs {
+        Some(e) => fx.report(&config, Time::new(chrono::DateTime::from_timestamp(e, 0).expect("timestamp"))),
+        None => (ValidationReport::new(&config), Metrics::new()),
+    };
+    history.mark_update_start();
+    history.update(report, &LocalExceptions::empty(), metrics);
+    history.mark_update_done();
+    let wait = history.read().refresh_wait();
+    let (t0, t1) = match bracket.finish() {
+        Ok(b) => b,
+        Err(why) => return Verdict::Dropped(why),
+    };
+    // the fixture must have produced exactly this expiry
+    let installed = history.read().current().and_then(|s| s.refresh()).map(|t| t.timestamp());
+    if installed != expiry_abs {
+        return Verdict::Dropped(format!("fixture_expiry_mismatch"));
+    }
+    oracle(case.refresh, case.min_refresh, expiry_abs.map(|e| e as f64), class, wait, t0, t1)
+}
+
+fn judge_loop(env: &Env, engine: &Engine, case: &LoopCase, info: &mut CaseInfo) -> Verdict {
+    let config = match make_config(env, case.refresh, case.min_refresh, case.via_file) {
+        Ok(c) => c,
+        Err(e) => return Verdict::Dropped(format!("config: {}", e)),
+    };
+    common_classes(info, case.refresh, case.min_refresh, case.via_file);
+    info.class(format!("loop/data={}", case.data));
+    info.nt(matches!(case.min_refresh, Some(m) if m != case.refresh));
+    let history = SharedHistory::from_config(&config);
+    let mut notify = NotifySender::new();
+    let a = crate::pay::MSet::from_items([crate::pay::MItem::Origin(crate::pay::MOrigin::new(std::net::IpAddr::V4(Ipv4Addr::new(10, 0, 0, 0)), 8, None, 64496))]);
+    let b = crate::pay::MSet::from_items([crate::pay::MItem::Origin(crate::pay::MOrigin::new(std::net::IpAddr::V4(Ipv4Addr::new(10, 0, 0, 0)), 8, Some(9), 64497))]);
+    let (ex1, ex2) = match case.data {
+        0 => (LocalExceptions::empty(), LocalExceptions::empty()),
+        1 => (exceptions_for(&a), exceptions_for(&a)),
+        _ => (exceptions_for(&a), exceptions_for(&b)),
+    };
+    // the server loop: initial run, then immediately a regular run, then sleep for refresh_wait()
+    if Server::verif_process_once(&config, engine, &history, &mut notify, &ex1, true).is_err() {
+        return Verdict::Dropped("initial_run_failed".into());
+    }
+    let bracket = Bracket::start();
+    if Server::verif_process_once(&config, engine, &history, &mut notify, &ex2, false).is_err() {
+        return Verdict::Dropped("regular_run_failed".into());
+    }
+    let wait = history.read().refresh_wait();
+    let (t0, t1) = match bracket.finish() {
+        Ok(b) => b,
+        Err(why) => return Verdict::Dropped(why),
+    };
+    if history.read().current().and_then(|s| s.refresh()).is_some() {
+        return Verdict::Dropped("unexpected_expiry".into());
+    }
+    oracle(case.refresh, case.min_refresh, None, "expiry=none", wait, t0, t1)
+}
+
+fn secs_strategy() -> impl Strategy<Value = u64> {
+    prop_oneof![
+        6 => prop::sample::select(vec![1u64, 2, 10, 600, 86_400, u32::MAX as u64]),
+        1 => Just(0u64),
+        2 => 1u64..100_000,
+        1 => 1u64..=u32::MAX as u64,
+    ]
+}
+
+fn timing_strategy() -> impl Strategy<Value = (u64, Option<u64>)> {
+    (secs_strategy(), prop_oneof![2 => Just(None), 5 => secs_strategy().prop_map(Some)], 0u8..4, 0u64..1000).prop_map(|(r, m, rel, d)| {
+        // force relation classes <, =, > to be frequent
+        let m = match (m, rel) {
+            (Some(_), 0) => Some(r),
+            (Some(_), 1) => Some(r.saturating_sub(1 + d).min(r)),
+            (Some(_), 2) => Some((r + 1 + d).min(u32::MAX as u64)),
+            (m, _) => m,
+        };
+        (r, m)
+    })
+}
+
+pub fn case_strategy() -> impl Strategy<Value = Case> {
+    (timing_strategy(), any::<bool>(), 0u8..8, any::<u64>(), any::<bool>()).prop_map(|((refresh, min_refresh), via_file, class, rnd, unchanged)| {
+        let r = refresh as i64;
+        let m = min_refresh.unwrap_or(0) as i64;
+        let between = |lo: i64, hi: i64| -> i64 {
+            // a value in lo..=hi (lo if empty)
+            if hi <= lo {
+                lo
+            } else {
+                lo + (rnd % ((hi - lo + 1) as u64)) as i64
+            }
+        };
+        let expiry = match class {
+            0 => None,
+            1 => Some(-between(1, 100_000)),
+            2 => Some(between(0, (m - 1).max(0))), // below min-refresh (or 0)
+            3 | 4 => {
+                // strictly inside (min, refresh) when that interval is non-empty, else just below refresh
+                if m + 1 < r {
+                    Some(between(m + 1, r - 1))
+                } else {
+                    Some((r - 1).max(0))
+                }
+            }
+            5 => Some(r),
+            6 => Some(between(r + 1, r + 100_000)),
+            _ => Some(between(0, r + 10)),
+        };
+        Case { refresh, min_refresh, via_file, expiry, unchanged }
+    })
+}
+
+pub fn loop_strategy() -> impl Strategy<Value = LoopCase> {
+    (timing_strategy(), any::<bool>(), 0u8..3).prop_map(|((refresh, min_refresh), via_file, data)| LoopCase { refresh, min_refresh, via_file, data })
+}
+
+pub fn run(ctx: &Ctx, rep: &mut Report, replay: Option<&serde_json::Value>) {
+    rep.rule("refresh and min-refresh from {0,1,2,10,600,86400,2^32-1,random} with forced relation classes (<,=,>,unset), given on the command line or in the config file and read by routinator's parsers; sub-check 'direct': initial result then a regular result whose data set has no expiry or an expiry (whole seconds relative to the run) in the classes past / below min-refresh / strictly inside (min-refresh, refresh) / at refresh / after refresh, installed via SharedHistory::update + mark_update_done; sub-check 'loop': initial + regular Server::process_once over an engine without TALs (no expiry), exactly the calls of the server loop; observable refresh_wait(); non-trivial = min-refresh set and expiry strictly inside (min-refresh, refresh) ('loop': min-refresh set and different from refresh); distinct by serialised case");
+    rep.assume("wall-clock oracle: t0/t1 are taken immediately around the run and refresh_wait(); floor is judged exactly (refresh_wait returns the value slept), ceiling and expiry-derived bounds with +-1 s beyond the measured bracket; a case is dropped when the bracket exceeds 5 s or SystemTime and Instant disagree by more than 0.25 s (clock step)");
+    rep.assume("data-set expiry is injected through the public ProcessRun/ProcessPubPoint interface of the real ValidationReport (point_validity with the generated time) using a real rpki-validated TA certificate and ROA; how the engine derives that time from manifests/CRLs/certificates is not part of this check");
+    rep.assume("values above 2^32-1 s are outside the domain (DESIGN C34)");
+    let env = Env::new(ctx.scratch());
+    let fx = Fixture::new();
+    let prop = |case: &Case, info: &mut CaseInfo| judge(&env, &fx, case, info);
+    init_process();
+    let engine_config = env.config(&[], &[]).expect("engine config");
+    let mut engine = Engine::new(&engine_config, true).expect("engine");
+    engine.ignite().expect("ignite");
+    let prop_loop = |case: &LoopCase, info: &mut CaseInfo| judge_loop(&env, &engine, case, info);
+    if let Some(v) = replay {
+        let t: Tagged<serde_json::Value> = serde_json::from_value(v.clone()).expect("replay");
+        match t.sub.as_str() {
+            "direct" => run_case(ctx, rep, "direct", &serde_json::from_value::<Case>(t.case).expect("case"), prop),
+            "loop" => run_case(ctx, rep, "loop", &serde_json::from_value::<LoopCase>(t.case).expect("case"), prop_loop),
+            other => panic!("unknown sub {}", other),
+        }
+        return;
+    }
+    run_prop(ctx, rep, "direct", ctx.tier.pick(60_000, 1_000_000), case_strategy(), prop);
+    run_prop(ctx, rep, "loop", ctx.tier.pick(5_000, 60_000), loop_strategy(), prop_loop);
 }
